@@ -380,9 +380,18 @@ func (b *StatefulBlock[I, O, A]) queueAccept() {
 func (b *StatefulBlock[I, O, A]) processAccept(ctx context.Context) error {
 	defer b.vm.acceptedQueueBlocksProcessedWg.Done()
 
-	parent, err := b.vm.GetBlock(ctx, b.Parent())
-	if err != nil {
-		return fmt.Errorf("failed to get %s while accepting %s: %w", b.Parent(), b, err)
+	// Accepted blocks are processed in order, so the parent is the last
+	// processed block. Looking it up by ID alone may return a block without its
+	// accepted value if it has already been evicted from the accepted cache.
+	b.vm.metaLock.Lock()
+	parent := b.vm.lastProcessedBlock
+	b.vm.metaLock.Unlock()
+	if parent == nil || parent.ID() != b.Parent() {
+		var err error
+		parent, err = b.vm.GetBlock(ctx, b.Parent())
+		if err != nil {
+			return fmt.Errorf("failed to get %s while accepting %s: %w", b.Parent(), b, err)
+		}
 	}
 	if err := b.accept(ctx, parent.Accepted); err != nil {
 		return err
